@@ -337,7 +337,42 @@ class Exec:
             guards.append(v if isinstance(e.op, ast.And) else z3.Not(v))
         return z3.And(*vals) if isinstance(e.op, ast.And) else z3.Or(*vals)
 
+    def set_union_equals(self, e, st):
+        """list(set(a) | set(b)) == b / != b  for b = four consecutive integers starting at a non-negative multiple of 4 (the successor list of a vertex).
+        TRUSTED (conformance-checked): CPython iterates a set of small non-negative ints that is exactly such a block in ascending order, so the list
+        equals b exactly when every element of a occurs in b; with any other element present the lists differ in content."""
+        if not (len(e.ops) == 1 and isinstance(e.ops[0], (ast.Eq, ast.NotEq)) and isinstance(e.left, ast.Call) and isinstance(e.left.func, ast.Name)
+                and e.left.func.id == "list" and len(e.left.args) == 1 and isinstance(e.left.args[0], ast.BinOp) and isinstance(e.left.args[0].op, ast.BitOr)):
+            return None
+        l_, r_ = e.left.args[0].left, e.left.args[0].right
+        ok = all(isinstance(x, ast.Call) and isinstance(x.func, ast.Name) and x.func.id == "set" and len(x.args) == 1 and isinstance(x.args[0], ast.Name)
+                 for x in (l_, r_))
+        if not ok or not (isinstance(e.comparators[0], ast.Name) and e.comparators[0].id == r_.args[0].id):
+            return None
+        a, b = self.ev(l_.args[0], st), self.ev(r_.args[0], st)
+        if not (isinstance(a, Seq) and isinstance(b, Seq) and lit(b.n) == 4):
+            raise Unsupported("set union comparison of this shape")
+        self.trusted_used.add("list(set(a) | set(b)) == b, for b four consecutive ints from a multiple of 4: exactly when every element of a is in b (CPython set order)")
+        self.prove(st, f"set-union-block:{self.ordinal('setu')}", z3.And(b.at(0) >= 0, b.at(0) % 4 == 0, *[b.at(j) == b.at(0) + j for j in range(1, 4)]), e.lineno)
+        m_ = getattr(a, "where_of", None)
+        inb = lambda x: z3.Or(*[b.at(j) == x for j in range(4)])
+        if m_ is not None:
+            w = z3.Int("w#su")
+            from pyvc.sym import qforall
+            seq_ = m_.seq
+            trig = [seq_.arr[w]] if isinstance(seq_, Seq) and lit(seq_.start) == 0 else None
+            subset = qforall([w], z3.Implies(z3.And(0 <= w, w < m_.n, m_.cond(w)), inb(w)), trig)
+        else:
+            n_ = lit(a.n)
+            if n_ is None or n_ > 8:
+                raise Unsupported("set union comparison with a long symbolic list")
+            subset = z3.And(*[inb(a.at(j)) for j in range(n_)]) if n_ else z3.BoolVal(True)
+        return subset if isinstance(e.ops[0], ast.Eq) else z3.Not(subset)
+
     def ev_Compare(self, e, st):
+        special = self.set_union_equals(e, st)
+        if special is not None:
+            return special
         left = self.ev(e.left, st)
         out = []
         for op, right_e in zip(e.ops, e.comparators):
@@ -439,6 +474,10 @@ class Exec:
             v = item.at(0) if isinstance(item, Seq) else toint(item)
             if isinstance(item, Seq):
                 self.prove(st, f"char-in-list:{self.ordinal('in')}", item.n == 1, line)
+            m_ = getattr(container, "where_of", None)
+            if m_ is not None and lit(container.n) is None:
+                # membership in where(mask)[0] (positions where the mask holds, none missing): the mask itself decides it
+                return z3.And(0 <= v, v < m_.n, m_.cond(v))
             n = lit(container.n)
             if n is not None and n <= 8:
                 return z3.Or(*[container.at(j) == v for j in range(n)]) if n else z3.BoolVal(False)
@@ -805,6 +844,20 @@ class Exec:
                     out.n = src.n
                     out.maxlen = n
                     return out
+        if isinstance(src, Seq) and isinstance(g.target, ast.Name) and lit(src.n) is not None and lit(src.n) <= 8 and src.elem == "int":
+            # [expr(x) for x in <list of a literal number of ints>]: element by element (the comprehension variable is local to it)
+            t = g.target.id
+            saved = st.env.get(t)
+            vals = []
+            for j in range(lit(src.n)):
+                st.env[t] = src.at(j)
+                vals.append(self.ev(e.elt, st))
+            if saved is None:
+                st.env.pop(t, None)
+            else:
+                st.env[t] = saved
+            if all(z3.is_expr(v) and z3.is_int(v) for v in vals):
+                return const_list(vals)
         raise Unsupported(f"list comprehension shape at line {e.lineno}")
 
     def table_lookup(self, txt, x):
@@ -827,6 +880,10 @@ class Exec:
             if e.attr in base.fields:
                 return base.fields[e.attr]
             raise Unsupported(f"attribute {e.attr}")
+        if e.attr == "shape" and isinstance(base, Mat):
+            return Tup([base.rows, base.cols])
+        if e.attr == "shape" and isinstance(base, Seq) and base.kind == "nd":
+            return Tup([base.n])
         raise Unsupported(f"attribute access .{e.attr}")
 
     # ------------------------------------------------------------------ calls
@@ -1055,8 +1112,27 @@ class Exec:
             if isinstance(base, Mat):
                 self.frame_store(st, name, line)
                 r_ = toint(self.ev(tgt.value.slice, st))
-                c_ = toint(self.ev(tgt.slice, st))
+                cv_ = self.ev(tgt.slice, st)
                 self.index_ok(st, r_, base.rows, line)
+                if isinstance(cv_, Seq):
+                    # m[r][list of at most four columns] = scalar : numpy writes THROUGH the row view m[r] (basic indexing gives a view)
+                    from pyvc.library import small_len
+                    nsel = small_len(cv_) if lit(cv_.n) is None else lit(cv_.n)
+                    if nsel is None or nsel > 4:
+                        raise Unsupported("row store at a long list of columns")
+                    self.trusted_used.add("numpy: m[r][columns] = value writes through the row view into m")
+                    row = base.arr2[r_]
+                    for j in range(nsel):
+                        inr = (j < cv_.n) if lit(cv_.n) is None else z3.BoolVal(True)
+                        col = cv_.at(j)
+                        self.may_raise(st, "IndexError", z3.And(inr, z3.Or(col < -base.cols, col >= base.cols)), f"index:{self.ordinal('idx')}", line)
+                        self.prove(st, f"column-nonnegative:{self.ordinal('colnn')}", z3.Implies(inr, col >= 0), line)
+                        row = z3.If(inr, z3.Store(row, col, toint(v)), row)
+                    named = fresh(name, A2)          # the updated matrix gets a name: its defining term contains if-then-else, which triggers may not
+                    st.assume(named == base.store_row(r_, row).arr2)
+                    st.env[name] = Mat(named, base.rows, base.cols, base.dtype)
+                    return
+                c_ = toint(cv_)
                 self.index_ok(st, c_, base.cols, line)
                 st.env[name] = base.store(r_, c_, toint(v))
                 return
@@ -1289,6 +1365,8 @@ class Exec:
                 return ("unroll", [Tup([iv(k_), x_]) for k_, x_ in enumerate(src.items)])
             if isinstance(src, PairSeq):
                 return src.n, lambda t, i, tgt: self.assign(tgt, Tup([i, src.at(i)]), t, None)
+            if isinstance(src, Mat):            # enumerate(matrix): (row index, row view)
+                return src.rows, lambda t, i, tgt, src=src: self.assign(tgt, Tup([i, src.row(i)]), t, None)
             if not isinstance(src, (Seq,)):
                 raise Unsupported("enumerate over a non-sequence")
             self._last_iter_maxlen = getattr(src, "maxlen", None) if lit(src.n) is None else None
